@@ -47,6 +47,9 @@ def sweep(ck, lab, records, extra_args, label, max_deaths=400):
             raise lib.Infra("c02 child failed before any frame (rc=%s): %s" % (rc, se[-1500:]))
         culprit = last
         rec = byid.get(culprit, {"id": culprit, "generated": True})
+        if culprit >= 3000000:
+            rec = {"id": culprit, "history": "one peer has knocked on several hundred distinct ports (every probe of this run), then the wire is "
+                                             "silent for the knock detector's quiet period of 5 s"}
         rp = {"label": label, "record": rec, "args": extra_args}
         if noprobe is not None and ("panic" not in se and "fatal error" not in se):
             ck.disagree("canary/stopped-processing", "after frame %s the listener no longer answers a well-formed probe: %s" % (
@@ -71,7 +74,7 @@ def run(tier, lab):
         for s in r.scn:
             records.append({"id": len(records), "f": s["f"], "class": s["class"]})
     nrandom = 2000 if tier == "quick" else 300000
-    deaths = sweep(ck, lab, records, ["-random", str(nrandom), "-seed", str(lib.seed())], "lattice")
+    deaths = sweep(ck, lab, records, ["-random", str(nrandom), "-seed", str(lib.seed()), "-quiet"], "lattice")
     # floods of connection attempts: table pre-filled up to the boundary, then real SYNs
     if tier == "quick":
         deaths += sweep(ck, lab, [], ["-fill", str(65535 - 150), "-flood", "400"], "flood-prefilled", max_deaths=3)
@@ -103,7 +106,10 @@ def replay(lab, path):
     ck = lib.Check(PROP, "quick", "exploration")
     ck.findings.entries = []
     rec = rp["record"]
-    if rec.get("generated"):
+    if rec.get("history"):
+        # the history needs the knocks of a run before the silence: 400 random frames, each followed by a probe to another port
+        deaths = sweep(ck, lab, [], ["-random", "400", "-seed", "1", "-quiet"], "replay", max_deaths=1)
+    elif rec.get("generated"):
         args = [a for a in rp["args"]]
         deaths = sweep(ck, lab, [], args + ["-from", str(rec["id"])], "replay", max_deaths=1)
     else:
